@@ -162,7 +162,7 @@ impl<'a> WireFormat<'a> for ResourceRecord<'a> {
 
         out.seek(std::io::SeekFrom::Start(len_position))?;
         out.write_all(&((end - len_position - 2) as u16).to_be_bytes())?;
-        out.seek(std::io::SeekFrom::End(0))?;
+        out.seek(std::io::SeekFrom::Start(end))?;
         Ok(())
     }
 }
